@@ -207,6 +207,12 @@ static void mk_history(bool need_last_processed)
 	global_config.dispatcher = model;
 	global_config.committed = canend;
 	global_config.serial = false;
+#ifdef REMOTE
+	n_nodes = 2; /* LP 1 (under test) is hosted by this rank 1, LP 0 by rank 0 */
+	nid = 1;
+	lid_node_first = 1;
+	n_lps_node = 1;
+#endif
 	rid = 0;
 	for(unsigned k = 0; k < NMSG; k++)
 		M[k] = mk_msg();
@@ -533,8 +539,11 @@ void harness_step(void)
 			if(k < model_sends) {
 				struct lp_msg *sm = M[NEW0 + k];
 				if(send_dest == 1 || n_nodes == 1)
-					VERIF_ASSERT(hist_at(kept + k) == (struct lp_msg *)((uintptr_t)sm | 1U) && ins[NEW0 + k] == 1 && sm->raw_flags == 0 && sm->dest == send_dest && sm->dest_t == mt + 1.0,
+					VERIF_ASSERT(hist_at(kept + k) == (struct lp_msg *)((uintptr_t)sm | 1U) && ins[NEW0 + k] == 1 && !rsent[NEW0 + k] && sm->raw_flags == 0 && sm->dest == send_dest && sm->dest_t == mt + 1.0,
 					    "step: every event scheduled by a forward execution is queued exactly once and recorded as sent");
+				else
+					VERIF_ASSERT(hist_at(kept + k) == (struct lp_msg *)((uintptr_t)sm | 2U) && rsent[NEW0 + k] == 1 && !ins[NEW0 + k] && sm->dest == send_dest && sm->dest_t == mt + 1.0,
+					    "step: an event for an LP of another rank is handed to MPI exactly once, never queued locally, and recorded as a remote send");
 			}
 		VERIF_ASSERT(next_new == model_sends, "step: exactly the scheduled events are allocated");
 		VERIF_ASSERT(LP->p.bound == mt, "step: the LP's time bound is the executed event's timestamp");
